@@ -1,6 +1,6 @@
 (* C02/ReuseProofs.v — a FileResponse object that answers many requests: its answers do
    not depend on what it answered before (with 02f930e), and did before it. *)
-From Coq Require Import List NArith Bool Arith Lia Permutation.
+From Coq Require Import List NArith Bool Arith Lia Permutation Sorted.
 From Baize Require Import Lib.Wire Lib.Order C03.Model C02.Model C02.Proofs Resp.Model C02.Reuse.
 Import ListNotations.
 
@@ -112,6 +112,143 @@ Proof.
     + apply hget_in. rewrite Hext. apply in_hget; assumption.
 Qed.
 
+(* ---------- the canonical (sorted) form of a header list depends on the multiset only ---------- *)
+
+Section SortPerm.
+  Variable A : Type.
+  Variable leb : A -> A -> bool.
+  Hypothesis leb_total : forall a b, leb a b = false -> leb b a = true.
+  Hypothesis leb_trans : forall a b c, leb a b = true -> leb b c = true -> leb a c = true.
+  Hypothesis leb_antisym : forall a b, leb a b = true -> leb b a = true -> a = b.
+
+  Let le (a b : A) : Prop := leb a b = true.
+
+  Lemma insert_perm x l : Permutation (insert_by leb x l) (x :: l).
+  Proof.
+    induction l as [|y r IH]; cbn [insert_by]; [apply Permutation_refl|].
+    destruct (leb x y); [apply Permutation_refl|].
+    apply perm_trans with (y :: x :: r); [apply perm_skip; exact IH|apply perm_swap].
+  Qed.
+
+  Lemma sort_perm l : Permutation (sort_by leb l) l.
+  Proof.
+    induction l as [|x r IH]; cbn [sort_by fold_right]; [apply perm_nil|].
+    apply perm_trans with (x :: sort_by leb r); [apply insert_perm|apply perm_skip; exact IH].
+  Qed.
+
+  Lemma insert_sorted x l : StronglySorted le l -> StronglySorted le (insert_by leb x l).
+  Proof.
+    induction l as [|y r IH]; cbn [insert_by]; intros Hs.
+    - constructor; [constructor|constructor].
+    - inversion Hs as [|? ? Hr Hall]; subst. destruct (leb x y) eqn:E.
+      + constructor; [exact Hs|]. constructor; [exact E|].
+        rewrite Forall_forall in *. intros z Hz. apply (leb_trans x y z E). apply Hall. exact Hz.
+      + constructor; [apply IH; exact Hr|].
+        rewrite Forall_forall in *. intros z Hz.
+        apply (Permutation_in _ (insert_perm x r)) in Hz. destruct Hz as [<-|Hz].
+        * apply leb_total. exact E.
+        * apply Hall. exact Hz.
+  Qed.
+
+  Lemma sort_sorted l : StronglySorted le (sort_by leb l).
+  Proof.
+    induction l as [|x r IH]; cbn [sort_by fold_right]; [constructor|]. apply insert_sorted. exact IH.
+  Qed.
+
+  Lemma sorted_perm_eq l1 : forall l2,
+    StronglySorted le l1 -> StronglySorted le l2 -> Permutation l1 l2 -> l1 = l2.
+  Proof.
+    induction l1 as [|x1 t1 IH]; intros l2 H1 H2 Hp.
+    - apply Permutation_nil in Hp. symmetry. exact Hp.
+    - destruct l2 as [|x2 t2]; [apply Permutation_sym, Permutation_nil in Hp; discriminate Hp|].
+      inversion H1 as [|? ? Hs1 Ha1]; subst. inversion H2 as [|? ? Hs2 Ha2]; subst.
+      rewrite Forall_forall in Ha1, Ha2.
+      assert (Hx : x1 = x2).
+      { assert (Hin1 : In x1 (x2 :: t2)) by (apply (Permutation_in _ Hp); left; reflexivity).
+        assert (Hin2 : In x2 (x1 :: t1)) by (apply (Permutation_in _ (Permutation_sym Hp)); left; reflexivity).
+        destruct Hin1 as [Hin1|Hin1]; [symmetry; exact Hin1|].
+        destruct Hin2 as [Hin2|Hin2]; [exact Hin2|].
+        apply leb_antisym; [apply Ha1; exact Hin2|apply Ha2; exact Hin1]. }
+      subst x2. f_equal. apply IH; [exact Hs1|exact Hs2|]. apply Permutation_cons_inv in Hp. exact Hp.
+  Qed.
+
+  Lemma sort_by_perm l1 l2 : Permutation l1 l2 -> sort_by leb l1 = sort_by leb l2.
+  Proof.
+    intros Hp. apply sorted_perm_eq; [apply sort_sorted|apply sort_sorted|].
+    apply perm_trans with l1; [apply sort_perm|].
+    apply perm_trans with l2; [exact Hp|apply Permutation_sym, sort_perm].
+  Qed.
+End SortPerm.
+
+Lemma bytes_leb_total a : forall b, bytes_leb a b = false -> bytes_leb b a = true.
+Proof.
+  induction a as [|x a IH]; intros [|y b]; cbn [bytes_leb]; try reflexivity; try discriminate.
+  destruct (N.ltb x y) eqn:E1; [discriminate|]. destruct (N.ltb y x) eqn:E2; [reflexivity|]. apply IH.
+Qed.
+
+Lemma bytes_leb_antisym a : forall b, bytes_leb a b = true -> bytes_leb b a = true -> a = b.
+Proof.
+  induction a as [|x a IH]; intros [|y b]; cbn [bytes_leb]; try reflexivity; try discriminate.
+  destruct (N.ltb x y) eqn:E1; destruct (N.ltb y x) eqn:E2; try discriminate.
+  - apply N.ltb_lt in E1, E2. lia.
+  - intros H1 H2. apply N.ltb_ge in E1, E2. assert (x = y) by lia. subst y. f_equal. apply IH; assumption.
+Qed.
+
+Lemma bytes_leb_trans a : forall b c, bytes_leb a b = true -> bytes_leb b c = true -> bytes_leb a c = true.
+Proof.
+  induction a as [|x a IH]; intros [|y b] [|z c]; cbn [bytes_leb]; try reflexivity; try discriminate.
+  destruct (N.ltb x y) eqn:E1; destruct (N.ltb y x) eqn:E2; try discriminate;
+  destruct (N.ltb y z) eqn:E3; destruct (N.ltb z y) eqn:E4; try discriminate;
+  destruct (N.ltb x z) eqn:E5; try reflexivity; destruct (N.ltb z x) eqn:E6;
+  rewrite ?N.ltb_lt, ?N.ltb_ge in *; try lia; intros H1 H2; try discriminate.
+  apply (IH b c); assumption.
+Qed.
+
+Lemma bytes_eqb_sym a b : bytes_eqb a b = bytes_eqb b a.
+Proof.
+  destruct (bytes_eqb a b) eqn:E1; destruct (bytes_eqb b a) eqn:E2; try reflexivity.
+  - apply bytes_eqb_eq in E1. subst. rewrite (proj2 (bytes_eqb_eq b b) eq_refl) in E2. discriminate E2.
+  - apply bytes_eqb_eq in E2. subst. rewrite (proj2 (bytes_eqb_eq a a) eq_refl) in E1. discriminate E1.
+Qed.
+
+Lemma pair_leb_total p q : Order.pair_leb p q = false -> Order.pair_leb q p = true.
+Proof.
+  unfold Order.pair_leb. rewrite (bytes_eqb_sym (fst q) (fst p)).
+  destruct (bytes_eqb (fst p) (fst q)); apply bytes_leb_total.
+Qed.
+
+Lemma pair_leb_antisym p q : Order.pair_leb p q = true -> Order.pair_leb q p = true -> p = q.
+Proof.
+  unfold Order.pair_leb. rewrite (bytes_eqb_sym (fst q) (fst p)).
+  destruct (bytes_eqb (fst p) (fst q)) eqn:E; intros H1 H2.
+  - apply bytes_eqb_eq in E. destruct p as [kp vp], q as [kq vq]. cbn [fst snd] in *. subst kq.
+    f_equal. apply bytes_leb_antisym; assumption.
+  - exfalso. assert (Hk : fst p = fst q) by (apply bytes_leb_antisym; assumption).
+    apply bytes_eqb_eq in Hk. rewrite Hk in E. discriminate E.
+Qed.
+
+Lemma pair_leb_trans p q r : Order.pair_leb p q = true -> Order.pair_leb q r = true -> Order.pair_leb p r = true.
+Proof.
+  unfold Order.pair_leb.
+  destruct (bytes_eqb (fst p) (fst q)) eqn:E1; destruct (bytes_eqb (fst q) (fst r)) eqn:E2; intros H1 H2.
+  - apply bytes_eqb_eq in E1, E2. rewrite E1, E2, (proj2 (bytes_eqb_eq _ _) eq_refl).
+    apply (bytes_leb_trans _ _ _ H1 H2).
+  - apply bytes_eqb_eq in E1. rewrite E1, E2. exact H2.
+  - apply bytes_eqb_eq in E2. rewrite <- E2, E1. exact H1.
+  - destruct (bytes_eqb (fst p) (fst r)) eqn:E3.
+    + exfalso. apply bytes_eqb_eq in E3. rewrite <- E3 in H2.
+      assert (Hk : fst p = fst q) by (apply bytes_leb_antisym; assumption).
+      apply bytes_eqb_eq in Hk. rewrite Hk in E1. discriminate E1.
+    + apply (bytes_leb_trans _ _ _ H1 H2).
+Qed.
+
+Lemma sort_headers_perm l1 l2 : Permutation l1 l2 -> sort_headers l1 = sort_headers l2.
+Proof.
+  unfold sort_headers. apply sort_by_perm.
+  - exact pair_leb_total.
+  - exact pair_leb_trans.
+  - exact pair_leb_antisym.
+Qed.
 (* ---------- the object's mapping never repeats a key ---------- *)
 
 Lemma NoDup_hinit_from items : forall st,
@@ -346,6 +483,7 @@ Theorem reuse_history_independent_proof i o caller hist q :
   let b := answer_after true i o caller [] q in
   reply_strip a = reply_strip b /\
   Permutation (reply_headers a) (reply_headers b) /\
+  sort_headers (reply_headers a) = sort_headers (reply_headers b) /\
   NoDup (map fst (reply_headers a)) /\
   (forall k, hget k (reply_headers a) = hget k (reply_headers b)).
 Proof.
@@ -358,10 +496,12 @@ Proof.
   assert (Hext : forall k, hget k (reuse_headers true (with_req o q) st) =
                            hget k (reuse_headers true (with_req o q) (obj_init caller o)))
     by (apply reuse_headers_same_map; exact Hf).
-  split; [|split; [|exact Hext]].
-  - apply same_map_permutation; [apply reuse_headers_NoDup; exact Hn|
-                                 apply reuse_headers_NoDup, NoDup_obj_init|exact Hext].
-  - apply (reuse_headers_NoDup true (with_req o q) st Hn).
+  assert (Hp : Permutation (reuse_headers true (with_req o q) st)
+                           (reuse_headers true (with_req o q) (obj_init caller o))).
+  { apply same_map_permutation; [apply reuse_headers_NoDup; exact Hn|
+                                 apply reuse_headers_NoDup, NoDup_obj_init|exact Hext]. }
+  split; [exact Hp|]. split; [apply sort_headers_perm; exact Hp|]. split; [|exact Hext].
+  apply (reuse_headers_NoDup true (with_req o q) st Hn).
 Qed.
 
 (* ---------- a fresh object is the single-request model ---------- *)
